@@ -45,7 +45,12 @@ PRELUDE_HS = r"""
 #[verifier::external_body] pub struct Stats { _p: u8 }
 #[verifier::external_body] #[derive(PartialEq, Eq, Structural)] pub struct Keccak256 { _p: u8 }
 #[verifier::external_body] #[derive(Clone, Copy, PartialEq, Eq, Structural)] pub struct GenesisHash { _p: u8 }
-#[verifier::external_body] #[derive(PartialEq, Eq, Structural)] pub struct SessionId { _p: u8 }      // node::SessionId(Vec<u8>), compared structurally
+// node::SessionId(pub Vec<u8>) is copied from /repo (below); A1: derive(PartialEq) on it is content equality of the bytes
+impl PartialEq for SessionId { #[verifier::external_body] fn eq(&self, o: &Self) -> (r: bool) { unimplemented!() } }
+impl PartialEqSpecImpl for SessionId {
+    open spec fn obeys_eq_spec() -> bool { true }
+    open spec fn eq_spec(&self, o: &Self) -> bool { *self == *o }
+}
 impl Clone for SessionId { #[verifier::external_body] fn clone(&self) -> (r: Self) ensures r == *self { unimplemented!() } }
 #[verifier::external_body] #[derive(PartialEq, Eq, Structural)] pub struct NodeKey { _p: u8 }        // node::PublicKey
 #[verifier::external_body] #[derive(PartialEq, Eq, Structural)] pub struct ValidatorKey { _p: u8 }   // validator::PublicKey
@@ -190,6 +195,7 @@ def add_handshakes(U):
                                             ("validator::GenesisHash", "GenesisHash")])
     U.item(F_GH, "enum Error", subs=[("enum Error", "enum GossipError"), ("node::InvalidSignatureError", "InvalidSignatureError"), ("ctx::Error", "CtxError")])
     U.item(F_CH, "enum Error", subs=[("enum Error", "enum ConsensusError"), ("anyhow::Error", "AnyhowError"), ("ctx::Error", "CtxError")])
+    U.item("node/libs/roles/src/node/messages.rs", "struct SessionId")
     U.raw(PRELUDE_HS, label="prelude handshake")
     U.raw(SPEC_HS, label="spec handshake")
     GS = [("ctx.with_timeout(TIMEOUT)", "ctx.with_timeout(timeout_const())"),
@@ -229,11 +235,118 @@ def add_handshakes(U):
 """)
 
 
+RUNNER_PRELUDE = r"""
+// ---------------- the stream runners: registration in the pools happens only for an authenticated key, removal only of an own registration ----------------
+pub open spec fn spec_val<T>(x: &T) -> T { *x }
+impl Clone for NodeKey { #[verifier::external_body] fn clone(&self) -> (r: Self) ensures r == *self { unimplemented!() } }
+impl Clone for ValidatorKey { #[verifier::external_body] fn clone(&self) -> (r: Self) ensures r == *self { unimplemented!() } }
+pub open spec fn node_authenticated(sid: Keccak256, genesis: GenesisHash, k: NodeKey) -> bool {
+    exists|h: GossipHandshake| #[trigger] gossip_proves(sid, genesis, h, k)
+}
+pub open spec fn val_authenticated(sid: Keccak256, genesis: GenesisHash, k: ValidatorKey) -> bool {
+    exists|h: ConsensusHandshake| #[trigger] consensus_proves(sid, genesis, h, k)
+}
+// R-type: PoolWatch<K, V> as an opaque handle. Its insert/remove closures are verified above (pool_insert / pool_remove); here the
+// CALL SITES carry the obligations: the key being registered was authenticated on `stream` for `genesis`, and remove() is only
+// reached by the task whose insert() succeeded (ghost flag).
+#[verifier::external_body] pub struct NodePool { _p: u8 }
+#[verifier::external_body] pub struct ValPool { _p: u8 }
+impl NodePool {
+    #[verifier::external_body]
+    pub async fn insert(&self, k: NodeKey, v: Arc<Connection>, Ghost(sid): Ghost<Keccak256>, Ghost(genesis): Ghost<GenesisHash>) -> (r: Result<(), AnyhowError>)
+        requires node_authenticated(sid, genesis, k) { unimplemented!() }
+    #[verifier::external_body]
+    pub async fn remove(&self, k: &NodeKey, Ghost(registered): Ghost<Option<NodeKey>>) requires registered == Some(*k) { unimplemented!() }
+}
+impl ValPool {
+    #[verifier::external_body]
+    pub async fn insert(&self, k: ValidatorKey, v: Stats, Ghost(sid): Ghost<Keccak256>, Ghost(genesis): Ghost<GenesisHash>) -> (r: Result<(), AnyhowError>)
+        requires val_authenticated(sid, genesis, k) { unimplemented!() }
+    #[verifier::external_body]
+    pub async fn remove(&self, k: &ValidatorKey, Ghost(registered): Ghost<Option<ValidatorKey>>) requires registered == Some(*k) { unimplemented!() }
+}
+#[verifier::external_body] pub struct SocketAddr { _p: u8 }
+#[verifier::external_body] pub struct Host { _p: u8 }
+// R-type: the fields of gossip::Network / consensus::Network these functions use
+pub struct GossipNetwork { pub cfg: Config, pub inbound: NodePool, pub outbound: NodePool, pub genesis: GenesisHash }
+pub struct ConsensusNetwork { pub gossip: Arc<GossipNetwork>, pub key: ValidatorSecret, pub inbound: ValPool, pub outbound: ValPool }
+impl GossipNetwork {
+    #[verifier::external_body] pub fn genesis_hash(&self) -> (r: GenesisHash) ensures r == self.genesis { unimplemented!() }
+    // R-stub: the RPC service loop over the authenticated stream (not under contract)
+    #[verifier::external_body] pub async fn run_stream(&self, ctx: &Ctx, stream: NoiseStream) -> (r: Result<(), AnyhowError>) { unimplemented!() }
+}
+impl ConsensusNetwork {
+    // R-stub: `scope::run!(ctx, |ctx, s| async { .. service.run(ctx, stream) .. })` -- the RPC service loop (not under contract)
+    #[verifier::external_body] pub async fn run_service(&self, ctx: &Ctx, stream: NoiseStream) -> (r: Result<(), AnyhowError>) { unimplemented!() }
+}
+// R-stub: preface::connect (TCP connect + encryption preface + noise handshake) yields a fresh encrypted stream
+#[verifier::external_body] pub async fn preface_connect(ctx: &Ctx, addr: SocketAddr) -> (r: Result<NoiseStream, AnyhowError>) { unimplemented!() }
+// R-stub: `*addr.resolve(ctx).await?.context(..)?.choose(&mut ctx.rng()).with_context(..)?` -- DNS resolution, not under contract
+#[verifier::external_body] pub async fn resolve_one(ctx: &Ctx, addr: Host) -> (r: Result<SocketAddr, AnyhowError>) { unimplemented!() }
+impl From<GossipError> for AnyhowError { #[verifier::external_body] fn from(e: GossipError) -> (r: AnyhowError) { unimplemented!() } }
+impl From<ConsensusError> for AnyhowError { #[verifier::external_body] fn from(e: ConsensusError) -> (r: AnyhowError) { unimplemented!() } }
+"""
+
+F_GR = "node/components/network/src/gossip/runner.rs"
+F_CM = "node/components/network/src/consensus/mod.rs"
+
+
+def add_runners(U):
+    U.raw(RUNNER_PRELUDE, label="prelude runners")
+    H = [("ctx::Ctx", "Ctx"), ("noise::Stream", "NoiseStream"), ("anyhow::Result<()>", "Result<(), AnyhowError>"),
+         ("node::PublicKey", "NodeKey"), ("validator::PublicKey", "ValidatorKey"), ("net::Host", "Host"), ("std::net::SocketAddr", "SocketAddr")]
+    H = [(a, b, None) for a, b in H]
+    RL = ("R-log", "R-errmsg", "R-underscore", "R-ctorfn")
+    # gossip inbound
+    MUTP = [("mut stream:", "stream:")]     # R-let: Verus loses `mut` on a parameter of an async fn; rebound mutably as the first statement
+    U.fn(F_GR, "impl Network :: fn run_inbound_stream", wrap="impl GossipNetwork", name="run_inbound_stream", ret="r", header_subs=H + MUTP, rules_=RL,
+         proof_at_start="let mut stream = stream;   /* R-let */ let ghost mut verif_reg: Option<NodeKey> = None;   /* W-ghost: this task's registration */",
+         subs=[("handshake::inbound(ctx, &self.cfg, self.genesis_hash(), &mut stream).await?",
+                "gossip_inbound(ctx, &self.cfg, self.genesis_hash(), &mut stream).await.map_err(|verif_e: GossipError| -> (verif_r: AnyhowError) { AnyhowError::from(verif_e) })?   /* R-try */"),
+               ("self.inbound.insert(conn.key.clone(), conn.clone()).await?;",
+                "self.inbound.insert(conn.key.clone(), conn.clone(), Ghost(stream.sid()), Ghost(self.genesis)).await?; proof { verif_reg = Some(spec_val(&conn.key)); }   /* W-ghost */"),
+               ("self.inbound.remove(&conn.key).await;", "self.inbound.remove(&conn.key, Ghost(verif_reg)).await;   /* W-ghost */")],
+         spec="    ensures true,     // the obligations are the preconditions of insert / remove at their call sites\n")
+    # gossip outbound
+    U.fn(F_GR, "impl Network :: fn run_outbound_stream", wrap="impl GossipNetwork", name="run_outbound_stream", ret="r", header_subs=H, rules_=RL,
+         proof_at_start="let ghost mut verif_reg: Option<NodeKey> = None;   /* W-ghost */",
+         regions=[("let addr = *addr", "let addr = *addr", "let addr = resolve_one(ctx, addr).await?;   /* R-stub */")],
+         subs=[("preface::connect(ctx, addr, preface::Endpoint::GossipNet).await?", "preface_connect(ctx, addr).await?   /* R-stub */"),
+               ("handshake::outbound(ctx, &self.cfg, self.genesis_hash(), &mut stream, peer).await?",
+                "gossip_outbound(ctx, &self.cfg, self.genesis_hash(), &mut stream, peer).await.map_err(|verif_e: GossipError| -> (verif_r: AnyhowError) { AnyhowError::from(verif_e) })?   /* R-try */"),
+               ("self.outbound.insert(peer.clone(), conn.into()).await?;",
+                "self.outbound.insert(peer.clone(), Arc::new(conn)   /* R-std: .into() */, Ghost(stream.sid()), Ghost(self.genesis)).await?; proof { verif_reg = Some(spec_val(peer)); }   /* W-ghost */"),
+               ("self.outbound.remove(peer).await;", "self.outbound.remove(peer, Ghost(verif_reg)).await;   /* W-ghost */")],
+         spec="    ensures true,\n")
+    # consensus inbound / outbound: the service loop (a scope::run! macro block) is one abstracted statement
+    CSUB = [("handshake::inbound(ctx, &self.key, self.gossip.genesis_hash(), &mut stream).await?",
+             "consensus_inbound(ctx, &self.key, self.gossip.genesis_hash(), &mut stream).await.map_err(|verif_e: ConsensusError| -> (verif_r: AnyhowError) { AnyhowError::from(verif_e) })?   /* R-try */")]
+    U.fn(F_CM, "impl Network :: fn run_inbound_stream", wrap="impl ConsensusNetwork", name="run_inbound_stream", ret="r", header_subs=H + MUTP, rules_=RL,
+         proof_at_start="let mut stream = stream;   /* R-let */ let ghost mut verif_reg: Option<ValidatorKey> = None;   /* W-ghost */",
+         regions=[("let res = scope::run!", "let res = scope::run!", "let res = self.run_service(ctx, stream).await;   /* R-stub: RPC service loop */")],
+         subs=CSUB + [("self.inbound.insert(peer.clone(), stream.stats()).await?;",
+                       "self.inbound.insert(peer.clone(), stream.stats(), Ghost(stream.sid()), Ghost(self.gossip.genesis)).await?; proof { verif_reg = Some(spec_val(&peer)); }   /* W-ghost */"),
+                      ("self.inbound.remove(&peer).await;", "self.inbound.remove(&peer, Ghost(verif_reg)).await;   /* W-ghost */")],
+         spec="    ensures true,\n")
+    U.fn(F_CM, "impl Network :: fn run_outbound_stream", wrap="impl ConsensusNetwork", name="run_outbound_stream", ret="r", header_subs=H, rules_=RL,
+         proof_at_start="let ghost mut verif_reg: Option<ValidatorKey> = None;   /* W-ghost */",
+         regions=[("let consensus_cli =", "let consensus_cli =", ""),
+                  ("let res = scope::run!", "let res = scope::run!", "let res = self.run_service(ctx, stream).await;   /* R-stub: RPC service loop (incl. the client handle above) */")],
+         subs=[("preface::connect(ctx, addr, preface::Endpoint::ConsensusNet).await?", "preface_connect(ctx, addr).await?   /* R-stub */"),
+               ("handshake::outbound(\n            ctx,\n            &self.key,\n            self.gossip.genesis_hash(),\n            &mut stream,\n            peer,\n        )\n        .await?;",
+                "consensus_outbound(ctx, &self.key, self.gossip.genesis_hash(), &mut stream, peer).await.map_err(|verif_e: ConsensusError| -> (verif_r: AnyhowError) { AnyhowError::from(verif_e) })?;   /* R-try */"),
+               ("self.outbound.insert(peer.clone(), stream.stats()).await?;",
+                "self.outbound.insert(peer.clone(), stream.stats(), Ghost(stream.sid()), Ghost(self.gossip.genesis)).await?; proof { verif_reg = Some(spec_val(peer)); }   /* W-ghost */"),
+               ("self.outbound.remove(peer).await;", "self.outbound.remove(peer, Ghost(verif_reg)).await;   /* W-ghost */")],
+         spec="    ensures true,\n")
+
+
 def build(repo):
-    U = Unit("admission", ["C12"], desc="connection admission", uses="use std::sync::Arc;")
+    U = Unit("admission", ["C12"], desc="connection admission", uses="use std::sync::Arc;\nuse vstd::std_specs::cmp::*;")
     U.repo = repo
     add_pool(U)
     add_handshakes(U)
+    add_runners(U)
     U.assume("A3: the noise handshake hash is unique per session and cannot be chosen by a peer; signatures are uninterpreted predicates")
     U.assume("A4: the Watch mutex serialises the pool closures (send_if_ok / send_if_modified run atomically); interleavings of concurrent "
              "inserts and the placement of insert/remove in the gossip/consensus runners are not modelled")
